@@ -204,11 +204,13 @@ inductive Stored where
   deriving DecidableEq, Repr
 
 /-- `(*xlsxC).setCellTime`: fold the zone offset into the instant, convert, store as a
-number only if the serial is > 0. `utc` is the instant, `offset` the zone offset in seconds. -/
+number unless the folded instant is before the first instant of the date system
+(`isNum = !value.Before(firstInstant)`). `utc` is the instant, `offset` the zone offset in seconds. -/
 def setCellTime (utc offset : Int) (date1904 : Bool) : Stored :=
   let value := utc + offset * nsPerSec
   let x := timeToExcelTimeNs value date1904
-  if x > 0 then .num x else .text
+  let firstInstant := if date1904 then epoch1904 else minTime1900
+  if ¬ value < firstInstant then .num x else .text
 
 /-- `doTheFliegelAndVanFlandernAlgorithm` (Go integer division truncates toward zero) -/
 def fliegel (jd : Int) : Int × Int × Int :=
